@@ -185,6 +185,8 @@ def run_job(job: dict) -> dict:
     known = K.load_known_findings()
     seen_sigs: set = set()
     deadline = job.get("deadline")
+    if job.get("slice_s") is not None:
+        deadline = min(deadline or 1e18, time.time() + job["slice_s"])
     i = job["start"]
     end = job["start"] + job["count"]
     while i < end:
@@ -300,6 +302,11 @@ def run_check(prop: str, tier: str, spec: dict) -> int:
                 )
     # interleave so that different classes start first
     jobs.sort(key=lambda j: (j["start"], j["scenario"], j["cls_index"]))
+    if tier == "thorough":
+        # time-boxed tier: every job gets an equal slice of the budget so that no shape class starves
+        waves = -(-len(jobs) // max(1, min(workers, len(jobs))))
+        for j in jobs:
+            j["slice_s"] = max(10.0, (budget - 30.0) / waves)
 
     agg = {
         "runs": 0, "events": Counter(), "faults": Counter(), "probes": Counter(), "checks": Counter(), "sigs": set(),
